@@ -176,6 +176,40 @@ func runC19(o *out, r *rng, thorough bool, replay string) {
 				cU(inst), t.tipset(baseChain.Head()), cListZ(pt.ScaledPower), cZ(pt.ScaledTotal), cListZ(keys), cZ(t.of("net", []byte(verifNet))),
 				cU(dInst), cU(dRound), int(dPhase), t.chain(dValue), cZ(t.of("commit", supp.Commitments[:])), cZ(t.cid(supp.PowerTable)), cListZ(sl), sigTerm, exp))
 		o.count("oracle-"+kind, fmt.Sprint(in), kind != "honest")
+		if kind == "honest" && orc.Err() == nil {
+			// the oracle's verdict must not depend on what it accepted before: a forgery that re-uses the signers and the
+			// aggregate of the genuine decision just accepted -- for another value, or under other supplemental data --
+			// is still "not backed by a verifying aggregate"
+			for fk := 0; fk < 2; fk++ {
+				d2 := &gpbft.Justification{Vote: d.Vote, Signers: d.Signers, Signature: d.Signature}
+				fkind := "replayed-aggregate-other-value"
+				if fk == 0 {
+					d2.Vote.Value = &gpbft.ECChain{TipSets: append([]*gpbft.TipSet{baseChain.Head()}, mkTipset(baseChain.Head().Epoch+1, fmt.Sprintf("forged-%d", i)))}
+				} else {
+					d2.Vote.SupplementalData.PowerTable = gpbft.MakeCid([]byte(fmt.Sprintf("forged-table-%d", i)))
+					fkind = "replayed-aggregate-other-supplement"
+				}
+				err2 := orc.Validate(d2)
+				code2 := 0
+				if err2 != nil {
+					fmt.Sscan(errClass(err2, oracleErrClasses), &code2)
+				}
+				in2 := map[string]any{"kind": fkind, "powers": fmt.Sprint(pt.ScaledPower), "signers": signers, "instance": inst}
+				if err2 == nil {
+					o.violate("the simulator reports an error for a decision whose aggregate does not verify over the reported value and supplemental data", "oracle-accepts:"+fkind, in2,
+						"after accepting the genuine decision the oracle accepted a forgery carrying the same signers and signature")
+				}
+				exp2 := "None"
+				if code2 != 0 {
+					exp2 = fmt.Sprintf("(Some %d)", code2)
+				}
+				o.coqCase(fmt.Sprintf("oracle %v", in2),
+					fmt.Sprintf("match validate_decision %s %s %s %s %s %s (mkDec %s %s %d %s %s %s %s %s), %s with None, None => true | Some e, Some c => Z.eqb (oerr_code e) c | _, _ => false end",
+						cU(inst), t.tipset(baseChain.Head()), cListZ(pt.ScaledPower), cZ(pt.ScaledTotal), cListZ(keys), cZ(t.of("net", []byte(verifNet))),
+						cU(dInst), cU(dRound), int(dPhase), t.chain(d2.Vote.Value), cZ(t.of("commit", d2.Vote.SupplementalData.Commitments[:])), cZ(t.cid(d2.Vote.SupplementalData.PowerTable)), cListZ(sl), sigTerm, exp2))
+				o.count("oracle-"+fkind, fmt.Sprint(in2), true)
+			}
+		}
 		if i < 3 {
 			o.sample(map[string]any{"kind": "oracle", "input": in, "verdict_code": code})
 		}
